@@ -3,7 +3,7 @@ import os
 KERNELS = {'C19_containers': dict(src='kernels/C19_containers.cpp', flags=['-DNDEBUG'])}
 _PENDING_ON = not os.environ.get('NMV_NO_PENDING')
 _US = ['ll_memcpy_loop.0:50', 'll_memmove_loop.0:50', 'll_memmove_loop.1:50', 'll_memset_loop.0:50']
-LEAK = ['--memory-leak-check']
+LEAK = ['--memory-leak-check', '--slice-formula']
 HARNESSES = []
 def _h(name, func, bounds, quick, thorough=None, kf=None, unwind=14, **kw):
     def cf(cs):
@@ -17,13 +17,22 @@ def _h(name, func, bounds, quick, thorough=None, kf=None, unwind=14, **kw):
     HARNESSES.append(dict(name=name, src='harnesses/C19.c', func=func, kernels=['C19_containers'], unwind=unwind, bounds=bounds,
                           quick=cf(quick), thorough=cf(thorough or quick), **kw))
 
-HB = ('history of K steps on two live objects (both default-constructed), each step symbolic: operation in {push_back(v), resize(0..cap+2), write(i,v) at an existing index, '
+HB = ('two live objects are first driven by CONCRETE prefixes PRE0/PRE1 (per-query constants out of: nothing | push x2 | push x4 (initial buffer full) | push x5 (grown by push_back) | resize(6) | '
+      'resize(6),resize(1) (shrunk, spare capacity) | push x3,resize(0); pushed values symbolic), then K symbolic steps: operation in {push_back(v), resize(0..cap+2), write(i,v) at an existing index, '
       'assign other, self-assign, copy-construct(other)+assign, sized-construct(n)+assign}, target object, arguments n and v (any 32-bit value); '
       'sizes and all elements of BOTH objects compared with an array-based std::vector model after the history')
-_h('hist_vector', 'h_hist', 'utl::vector<int> (heap, malloc/free), with --memory-leak-check; ' + HB, quick=[{'KIND': 0, 'K': 3}], thorough=[{'KIND': 0, 'K': 4}, {'KIND': 0, 'K': 5}], cbmc_flags=LEAK)
-_h('hist_static_vector', 'h_hist', 'utl::static_vector<int,4>; ' + HB + '; over-capacity push_back/resize must be refused with contents unchanged', quick=[{'KIND': 1, 'K': 3}, {'KIND': 1, 'K': 4}], thorough=[{'KIND': 1, 'K': 5}, {'KIND': 1, 'K': 6}])
-_h('hist_small_vector_stl', 'h_hist', 'small_vector<int,3> over std::variant<utl::static_vector, std::vector>, with --memory-leak-check; ' + HB, quick=[{'KIND': 2, 'K': 3}], thorough=[{'KIND': 2, 'K': 4}], cbmc_flags=LEAK)
-_h('hist_small_vector_utl', 'h_hist', 'small_vector<int,3> over utl::either<utl::static_vector, utl::vector>, with --memory-leak-check; ' + HB, quick=[{'KIND': 3, 'K': 3}], thorough=[{'KIND': 3, 'K': 4}], cbmc_flags=LEAK)
+def _pre(pairs, **kw): return [dict(kw, PRE0=a, PRE1=b) for a, b in pairs]
+QP = [(0, 0), (1, 3), (3, 1), (2, 5), (5, 4), (4, 6), (6, 2)]
+ALLP = [(a, b) for a in range(7) for b in range(7)]
+HEAPF = ['--memory-leak-check', '--slice-formula']
+_h('hist_vector', 'h_hist', 'utl::vector<int> (heap, malloc/free; CBMC heap model with --memory-leak-check); ' + HB, quick=_pre(QP, KIND=0, K=1, OUTCAP=8), thorough=_pre(ALLP, KIND=0, K=1, OUTCAP=8) + [dict(KIND=0, K=2, OUTCAP=9, PRE0=0, PRE1=0, _timeout=1800, _mem_gb=14)],
+   cbmc_flags=HEAPF, unwind=10, mem_gb=6, kf=['KF_C19_VECTOR_SIZED_CTOR_UNINIT', 'KF_C19_VECTOR_ZERO_LEAK'])
+_h('hist_static_vector', 'h_hist', 'utl::static_vector<int,4>; ' + HB + '; over-capacity push_back/resize must be refused with contents unchanged', quick=_pre([(0, 0)], KIND=1, K=3, OUTCAP=8) + _pre([(2, 1), (5, 3)], KIND=1, K=2, OUTCAP=8),
+   thorough=_pre([(0, 0)], KIND=1, K=5, OUTCAP=8) + _pre(ALLP, KIND=1, K=2, OUTCAP=8), unwind=10, kf=['KF_C19_STATIC_RESIZE_STALE'])
+_h('hist_small_vector_stl', 'h_hist', 'small_vector<int,3> over std::variant<utl::static_vector, std::vector> (switches to the heap beyond 3 elements), with --memory-leak-check; ' + HB, quick=_pre([(0, 0), (1, 2), (2, 1), (5, 6)], KIND=2, K=1, OUTCAP=8),
+   thorough=_pre(ALLP, KIND=2, K=1, OUTCAP=8), cbmc_flags=HEAPF, unwind=10, mem_gb=6, kf=['KF_C19_STATIC_RESIZE_STALE'])
+_h('hist_small_vector_utl', 'h_hist', 'small_vector<int,3> over utl::either<utl::static_vector, utl::vector>, with --memory-leak-check; ' + HB, quick=_pre([(0, 0), (1, 2), (2, 1), (5, 6)], KIND=3, K=1, OUTCAP=8),
+   thorough=_pre(ALLP, KIND=3, K=1, OUTCAP=8), cbmc_flags=HEAPF, unwind=10, mem_gb=6, kf=['KF_C19_STATIC_RESIZE_STALE'])
 _h('ctor', 'h_ctor', 'utl::vector(N) N in 0..6 and utl::vector(a,b,c), with --memory-leak-check', quick=[{}], cbmc_flags=LEAK)
 _h('ctor_static', 'h_ctor_static', 'utl::static_vector<int,4>(N), N in 0..6', quick=[{}])
 _h('copy_independent', 'h_copy_independent', 'utl::vector copy, then a write to the source at a symbolic index; size 1..6, all values symbolic; with --memory-leak-check', quick=[{}], cbmc_flags=LEAK)
